@@ -365,6 +365,9 @@ func genWorldPlan(prop string, master uint64, run int) Plan {
 		}
 	case "C13":
 		pl.Cfg = neutralConfig(r)
+		if r.Chance(1, 4) {
+			pl.Cfg = Config{Opts: []OptSpec{{N: "report"}}} // ValidationErrors() is one of "every getter of the other"
+		}
 		u := b.parse(r.Chance(1, 6))
 		if r.Chance(1, 3) {
 			b.getsp(u) // materialise before deriving
